@@ -34,6 +34,10 @@ class FixDataclassDefaults(SimpleCodemod, NameAndAncestorResolutionMixin, UtilsM
         ):
             return updated_node
 
+        # a default that reads a class-level name cannot move into a lambda: the name is not visible from there
+        if original_node.value and self.reads_class_level_name(original_node.value):
+            return updated_node
+
         match original_node.value:
             case cst.List(elements=[]) | cst.Dict(elements=[]) | cst.Tuple(elements=[]):
                 return self.field_with_default_factory(original_node, updated_node)
